@@ -392,8 +392,11 @@ def seqIds (n : Nat) : List Int := (List.range n).map fun (k : Nat) => (k : Int)
 
 def styleWords (style : String) : List String := (style.splitOn " ").filter (· ≠ "")
 
+/-- columns of a base style (an empty generated list records "the Python function raises": no columns). -/
 def lookupStyle (tbl : List (String × List Gen.AtomStyles.Col)) (style : String) : Option (List ColSpec) :=
-  (tbl.find? (·.1 = style)).map fun e => e.2.map ofGenCol
+  match tbl.find? (·.1 = style) with
+  | some e => if e.2 = [] then none else some (e.2.map ofGenCol)
+  | none => none
 
 /-- `hybrid a b …`: the `atomic` columns followed by the not-yet-present properties of each sub-style. -/
 def hybridCols (tbl : List (String × List Gen.AtomStyles.Col)) (subs : List String) : Option (List ColSpec) := do
